@@ -69,7 +69,7 @@ def units(tier, seed):
 def run_unit(unit, ctx):
     if unit["kind"] == "pairs":
         plat = unit["platform"]
-        alph = P.alphabets(ctx.seed, plat, groups=False)
+        alph = P.alphabets(ctx.seed, plat, groups=False, small=len(unit["pos"]) >= 3)
         base = P.base_pairs(ctx.seed)[unit["base"]]
         n = 0
         for top, bot in P.pairs_for(base, tuple(unit["pos"]), alph):
